@@ -263,6 +263,10 @@ class SymCtx(_BaseCtx):
     def observe(self, label, value):
         self.observed[label] = value
 
+    def session(self, name):
+        """an independent 'interpreter': a separately loaded set of xrspatial modules (fresh module-level state) and a fresh global RNG"""
+        return _ShimSession()
+
     def shares_memory(self, result, arg, argpos=0):
         """does the result share (writable) storage with the argument?  symbolic run: buffer identity of the shim arrays"""
         return bool(symnp.shares_memory(_data_of(result), _data_of(arg)))
@@ -429,6 +433,13 @@ class ConcCtx(_BaseCtx):
         rtol, atol = tol
         return a <= b + (atol + rtol * abs(b))
 
+    def session(self, name):
+        if self.mode == 'shim':
+            return _ShimSession()
+        ses = _WorkerSession()
+        self._sessions = getattr(self, '_sessions', []) + [ses]
+        return ses
+
     def shares_memory(self, result, arg, argpos=0):
         if self.mode == 'shim':
             return bool(symnp.shares_memory(_data_of(result), _data_of(arg)))
@@ -457,6 +468,49 @@ def _data_of(o):
     if isinstance(o, symda.Array):
         o = o._whole if o._whole is not None else o.compute()
     return o
+
+
+class _ShimSession:
+    def __init__(self):
+        self.inst = loader.fresh_instance()
+        self.rng = symnp._Random()
+
+    def call(self, target, *args, **kwargs):
+        modname, fname = target.split(':')
+        m = self.inst.load(modname)
+        f = m
+        for part in fname.split('.'):
+            f = getattr(f, part)
+        saved = symnp.random
+        symnp.random = self.rng          # the process-global numpy RNG of this 'interpreter'
+        try:
+            return f(*args, **kwargs)
+        finally:
+            symnp.random = saved
+
+    def module(self, modname):
+        return self.inst.load(modname)
+
+    def close(self):
+        pass
+
+
+class _WorkerSession:
+    def __init__(self):
+        self.w = wire.Worker()
+
+    def call(self, target, *args, **kwargs):
+        modname, fname = target.split(':')
+        ret, after = self.w.call('xrspatial.' + modname, fname, list(args), kwargs)
+        for a, b in zip(args, after):
+            _copy_back(a, b)
+        return ret
+
+    def module(self, modname):
+        return None
+
+    def close(self):
+        self.w.close()
 
 
 class ShimConcCtx(ConcCtx):
@@ -587,6 +641,9 @@ def replay_concrete(prop, job, inputs, shim=False):
         status = 'skipped'
     except wire.RemoteError as e:
         status = 'remote-exception %s' % e
+    finally:
+        for ses in getattr(ctx, '_sessions', []):
+            ses.close()
     return ctx, status
 
 
